@@ -167,4 +167,27 @@ example : (depthFold (run (traceRec (depthInput 3 sliceInput))
     (Impl.decodeP (.seq .vec 24 (.seq .vec 24 (.seq .vec 24 (.seq .vec 24 (.seq .vec 1 (.prim .u8)))))))
     (([4, 4, 4, 4, 4, 7], 0), [])).2.2 (0, 0)).2 = 3 := by decide
 
+/-! ### User-defined wrappers (`WrapperTypeDecode` with the provided `decode_wrapped`)
+
+`Ty.wrap t` is the trait's default method: `descend_ref`, decode the wrapped type, `ascend_ref`,
+`into` — a nesting level without a heap announcement. All the theorems above quantify over every
+`Ty` and therefore include it; these spell out the two facts a user relies on. -/
+
+/-- Without a limit the wrapper is invisible: same result, same bytes left as the wrapped type. -/
+theorem user_wrapper_decodes_like_wrapped (t : Ty) (bs : Bytes) :
+    decode (.wrap t) bs = decode t bs := by
+  simp only [decode, Impl.decodeP, run_slice_descend, run_bind]
+  rcases h : run sliceInput (Impl.decodeP t) bs with ⟨r, s⟩
+  cases r <;> simp [run, sliceInput]
+
+/-- Under a depth limit it costs exactly one level, like `Box`: the value's nesting is one more
+    than the wrapped value's (so recursion through user wrappers is limited like any other). -/
+theorem user_wrapper_costs_one_level (t : Ty) (v : Val) : nesting (.wrap t) v = 1 + nesting t v := by
+  simp [nesting]
+
+example : nesting (.wrap (.option (.wrap (.prim .u8)))) (.some (.nat 1)) = 2 := by decide
+/-- depth limit 1 refuses two nested user wrappers, limit 2 accepts them -/
+example : (decodeLimit 1 (.wrap (.wrap (.prim .u8))) [7]).1.isOk = false := by decide
+example : (decodeLimit 2 (.wrap (.wrap (.prim .u8))) [7]).1.isOk = true := by decide
+
 end Scale.C11
